@@ -1,4 +1,7 @@
-(* Proofs_C44.v — lemmas and proofs for C44. *)
+(* Proofs_C44.v — lemmas and proofs for C44 (query strings select exactly the packages they
+   describe).  Sections: strip/blockers · shell patterns vs the compiled regex · evaluating
+   restriction lists · the head (::repo, :slot/subslot) · the dropped category · the main theorem
+   query_selects · substrings, plain atoms · pinned tree vs repaired · witnesses and examples. *)
 From Coq Require Import List NArith ZArith Bool Arith Lia.
 Import ListNotations.
 From Verif Require Import Base.Val C01.Model_C01 C04.Model_C04 C44.Model_C44 C44.Spec_C44.
@@ -33,3 +36,585 @@ Proof.
   intros fix_ t H. unfold parse_match_gen. cbn [parse_match_fuel]. unfold parse_head.
   rewrite mem_strip by reflexivity. rewrite H. reflexivity.
 Qed.
+
+(* ------------------------------------------------------------------ shell patterns *)
+Lemma glob_star_unfold p s :
+  glob_match (c_star :: p) s
+  = glob_match p s || match s with _ :: s' => glob_match (c_star :: p) s' | [] => false end.
+Proof. destruct s; reflexivity. Qed.
+
+Lemma glob_lit_unfold c p s : (c =? c_star) = false ->
+  glob_match (c :: p) s = match s with x :: s' => (x =? c) && glob_match p s' | [] => false end.
+Proof. intros H. cbn [glob_match]. rewrite H. reflexivity. Qed.
+
+Lemma rx_star_unfold r s :
+  rx_match (RAny :: r) s
+  = rx_match r s || match s with x :: s' => negb (x =? c_nl) && rx_match (RAny :: r) s' | [] => false end.
+Proof. destruct s; reflexivity. Qed.
+
+Lemma glob_star_app p s1 s2 : glob_match p s2 = true -> glob_match (c_star :: p) (s1 ++ s2) = true.
+Proof.
+  intros H. induction s1 as [|x s1 IH]; rewrite glob_star_unfold.
+  - cbn [app]. rewrite H. reflexivity.
+  - cbn [app]. rewrite IH. apply orb_true_r.
+Qed.
+
+Lemma glob_sound p : forall s, glob_match p s = true -> shell_match p s.
+Proof.
+  induction p as [|c p IH]; intros s H.
+  - destruct s; [constructor|discriminate].
+  - destruct (c =? c_star) eqn:E.
+    + apply N.eqb_eq in E. subst c.
+      induction s as [|x s IHs].
+      * rewrite glob_star_unfold, orb_false_r in H. apply (sm_star p [] []). apply IH, H.
+      * rewrite glob_star_unfold in H. apply orb_true_iff in H as [H|H].
+        -- apply (sm_star p [] (x :: s)). apply IH, H.
+        -- specialize (IHs H). inversion IHs; subst.
+           ++ exfalso. match goal with h : c_star <> c_star |- _ => apply h; reflexivity end.
+           ++ match goal with h : shell_match p ?s2 |- _ => apply (sm_star p (x :: s1) s2 h) end.
+    + rewrite (glob_lit_unfold _ _ _ E) in H. destruct s as [|x s]; [discriminate|].
+      apply andb_true_iff in H as [H1 H2]. apply N.eqb_eq in H1. subst x.
+      constructor; [intro Hc; subst; discriminate | apply IH, H2].
+Qed.
+
+Lemma glob_complete p s : shell_match p s -> glob_match p s = true.
+Proof.
+  induction 1.
+  - reflexivity.
+  - rewrite glob_lit_unfold by (apply N.eqb_neq; assumption). rewrite N.eqb_refl. assumption.
+  - apply glob_star_app. assumption.
+Qed.
+
+Lemma glob_match_is_shell_proof : forall p s, glob_match p s = true <-> shell_match p s.
+Proof. intros; split; [apply glob_sound | apply glob_complete]. Qed.
+
+(* the compiled regular expression decides the same language on newline-free values *)
+Lemma no_nl_cons x s : no_nl (x :: s) = true -> (x =? c_nl) = false /\ no_nl s = true.
+Proof.
+  unfold no_nl, mem. cbn [existsb]. rewrite negb_orb. intros H. apply andb_true_iff in H as [H1 H2].
+  split; [|assumption]. rewrite N.eqb_sym. apply negb_true_iff, H1.
+Qed.
+
+Lemma regex_is_glob_proof : forall p s, no_nl s = true -> rx_match (glob_items p) s = glob_match p s.
+Proof.
+  induction p as [|c p IH]; intros s Hs.
+  - destruct s as [|x [|y s]]; try reflexivity.
+    apply no_nl_cons in Hs as [Hx _]. cbn. exact Hx.
+  - cbn [glob_items map]. destruct (c =? c_star) eqn:E.
+    + apply N.eqb_eq in E. subst c. fold (glob_items p).
+      induction s as [|x s IHs].
+      * rewrite rx_star_unfold, glob_star_unfold. rewrite IH by assumption. reflexivity.
+      * rewrite rx_star_unfold, glob_star_unfold. rewrite IH by assumption.
+        apply no_nl_cons in Hs as [Hx Hs]. rewrite Hx, IHs by assumption. reflexivity.
+    + fold (glob_items p). rewrite (glob_lit_unfold _ _ _ E). cbn [rx_match].
+      destruct s as [|x s]; [reflexivity|]. apply no_nl_cons in Hs as [_ Hs]. rewrite IH by assumption. reflexivity.
+Qed.
+
+Lemma glob_nostar p : forall s, mem c_star p = false -> glob_match p s = str_eqb p s.
+Proof.
+  induction p as [|c p IH]; intros s H.
+  - destruct s; reflexivity.
+  - unfold mem in H. cbn [existsb] in H. apply orb_false_iff in H as [H1 H2].
+    rewrite N.eqb_sym in H1. rewrite (glob_lit_unfold _ _ _ H1).
+    destruct s as [|x s]; [reflexivity|]. cbn [str_eqb]. rewrite IH by exact H2. rewrite (N.eqb_sym x c). reflexivity.
+Qed.
+
+Lemma glob_lone_star s : glob_match [c_star] s = true.
+Proof.
+  induction s as [|x s IH]; rewrite glob_star_unfold; [reflexivity|]. rewrite IH. apply orb_true_r.
+Qed.
+
+(* ------------------------------------------------------------------ evaluating restriction lists *)
+Definition evall (rs : list qr) (p : package) : bool := forallb (fun q => eval q p) rs.
+
+Lemma eval_and l p : eval (QAnd l) p = evall l p.
+Proof.
+  induction l as [|q l IH]; [reflexivity|].
+  change (eval (QAnd (q :: l)) p) with (eval q p && eval (QAnd l) p). rewrite IH. reflexivity.
+Qed.
+
+Lemma evall_cons q l p : evall (q :: l) p = eval q p && evall l p.
+Proof. reflexivity. Qed.
+
+Lemma evall_app a b p : evall (a ++ b) p = evall a p && evall b p.
+Proof. apply forallb_app. Qed.
+
+Lemma eval_finish rs r p : finish rs = Ok r -> eval r p = evall rs p.
+Proof.
+  destruct rs as [|q [|q' rs]]; cbn [finish]; intros H; injection H as <-.
+  - reflexivity.
+  - cbn [evall forallb]. rewrite andb_true_r. reflexivity.
+  - apply eval_and.
+Qed.
+
+Lemma str_eqb_sym a : forall b, str_eqb a b = str_eqb b a.
+Proof.
+  induction a as [|x a IH]; intros [|y b]; try reflexivity. cbn. rewrite IH, N.eqb_sym. reflexivity.
+Qed.
+
+(* one converted glob token against one attribute *)
+Definition piece (attr : N) (exact : str -> restr) (g : cg) : list qr :=
+  match g with
+  | CGNone => []
+  | CGExact t => [QR (exact t)]
+  | CGRegex t => [QGlob attr t]
+  | CGErr => []
+  end.
+
+Lemma piece_ok attr exact tok p :
+  (forall s, eval_restr ver_cmp p (exact s) = str_eqb s (pkg_field attr p)) ->
+  no_nl (pkg_field attr p) = true ->
+  convert_glob tok <> CGErr ->
+  evall (piece attr exact (convert_glob tok)) p = field_ok tok (pkg_field attr p).
+Proof.
+  intros Hex Hnl. unfold convert_glob, field_ok.
+  destruct (is_nil tok) eqn:En; [reflexivity|]. cbn [orb].
+  destruct (str_eqb tok [c_star]) eqn:Es.
+  - intros _. apply str_eqb_eq in Es. subst tok. cbn [piece evall forallb]. symmetry. apply glob_lone_star.
+  - destruct (mem c_star tok) eqn:Em; cbn [negb].
+    + destruct (valid_glob tok); [|congruence]. intros _.
+      cbn [piece evall forallb eval]. rewrite andb_true_r. apply regex_is_glob_proof, Hnl.
+    + intros _. cbn [piece evall forallb eval]. rewrite andb_true_r, Hex. symmetry. apply glob_nostar, Em.
+Qed.
+
+Definition wf_fields p : wf_pkg p = true ->
+  no_nl (p_cat p) = true /\ no_nl (p_pkg p) = true /\ no_nl (p_slot p) = true /\ no_nl (p_subslot p) = true.
+Proof.
+  unfold wf_pkg. intros H. repeat (apply andb_true_iff in H as [H ?]). auto.
+Qed.
+
+Lemma slot_part_ok attr exact tok l p :
+  (forall s, eval_restr ver_cmp p (exact s) = str_eqb s (pkg_field attr p)) ->
+  no_nl (pkg_field attr p) = true ->
+  slot_part attr exact tok = Some l ->
+  evall l p = field_ok tok (pkg_field attr p).
+Proof.
+  intros Hex Hnl. unfold slot_part.
+  destruct (is_nil tok) eqn:En.
+  - intros H; injection H as <-. unfold field_ok. rewrite En. reflexivity.
+  - destruct (mem c_star tok) eqn:Em.
+    + pose proof (piece_ok attr exact tok p Hex Hnl) as HP.
+      destruct (convert_glob tok) eqn:Ec; intros H; try discriminate; injection H as <-;
+        (rewrite <- HP by discriminate); reflexivity.
+    + intros H; injection H as <-. cbn [evall forallb eval]. rewrite andb_true_r, Hex.
+      unfold field_ok. rewrite En. cbn [orb]. symmetry. apply glob_nostar, Em.
+Qed.
+
+(* ------------------------------------------------------------------ the head: strip, ::repo, :slot/subslot *)
+Lemma head_ok t orig text rs p :
+  wf_pkg p = true -> parse_head t = HOk orig text rs ->
+  q_orig (split_query t) = orig /\ q_body (split_query t) = text
+  /\ evall rs p = extras_ok (extras_of (split_query t)) p.
+Proof.
+  intros Hwf. apply wf_fields in Hwf as (_ & _ & Hs & Hss).
+  unfold parse_head, split_query.
+  destruct (mem c_bang (strip t)); [discriminate|].
+  assert (Hrepo : forall r, evall [QR (RRepo r)] p = str_eqb r (p_repo p)).
+  { intros r. cbn. apply andb_true_r. }
+  assert (Hsl : forall tok l, slot_part 2 RSlot tok = Some l -> evall l p = field_ok tok (p_slot p)).
+  { intros tok l. apply (slot_part_ok 2 RSlot tok l p (fun s => eq_refl) Hs). }
+  assert (Hsu : forall tok l, slot_part 3 RSubSlot tok = Some l -> evall l p = field_ok tok (p_subslot p)).
+  { intros tok l. apply (slot_part_ok 3 RSubSlot tok l p (fun s => eq_refl) Hss). }
+  destruct (rsplit_dcolon (strip t)) as [[a r]|];
+    (destruct (Model_C03.split_last c_colon _) as [[b sl]|];
+     [ destruct (Model_C03.split_first c_slash sl) as [[x y]|];
+       [ destruct (slot_part 2 RSlot x) as [lx|] eqn:Ex; [|discriminate];
+         destruct (slot_part 3 RSubSlot y) as [ly|] eqn:Ey; [|discriminate]
+       | destruct (slot_part 2 RSlot sl) as [lx|] eqn:Ex; [|discriminate];
+         destruct (slot_part 3 RSubSlot []) as [ly|] eqn:Ey; [|discriminate] ]
+     | ]);
+    intros H; injection H as <- <- <-; (split; [reflexivity|]); (split; [reflexivity|]);
+    unfold extras_ok, extras_of; cbn [e_repo e_slot e_sub q_repo q_slot q_sub];
+    cbn [app]; rewrite ?evall_cons, ?evall_app, ?(Hsl _ _ Ex), ?(Hsu _ _ Ey);
+    cbn [evall forallb field_ok is_nil orb andb eval eval_restr]; rewrite ?andb_true_r, ?andb_assoc; try reflexivity.
+Qed.
+
+(* ------------------------------------------------------------------ the category dropped *)
+Definition cat_is (c : str) (r : restr) : Prop := match r with RCategory c' => c' = c | _ => True end.
+
+Lemma nocat_list vc c p l : Forall (cat_is c) l ->
+  forallb (eval_restr vc p) (filter not_category l) = forallb (eval_restr vc (with_cat p c)) l.
+Proof.
+  induction 1 as [|r l Hr _ IH]; [reflexivity|].
+  cbn [filter forallb]. destruct r; cbn [not_category forallb]; rewrite IH; try reflexivity.
+  cbn in Hr. subst s. cbn [eval_restr with_cat p_cat]. rewrite str_eqb_refl. reflexivity.
+Qed.
+
+Lemma use_restrictions_nocat c toks : Forall (cat_is c) (use_restrictions toks).
+Proof.
+  unfold use_restrictions.
+  repeat (apply Forall_app; split); match goal with |- Forall _ (if ?b then _ else _) => destruct b end;
+    repeat constructor.
+Qed.
+
+Lemma atom_restrictions_cat a : Forall (cat_is (a_cat a)) (atom_restrictions a).
+Proof.
+  unfold atom_restrictions.
+  repeat (apply Forall_app; split).
+  - destruct (a_repo a); repeat constructor.
+  - repeat constructor.
+  - destruct (a_fullver a); [destruct (a_op a =? 6)|]; repeat constructor.
+  - destruct (a_slot a); [destruct (a_subslot a)|]; repeat constructor.
+  - destruct (a_use a); [apply use_restrictions_nocat|constructor].
+Qed.
+
+Lemma nocat_ok a p :
+  forallb (eval_restr ver_cmp p) (filter not_category (atom_restrictions a))
+  = atom_match ver_cmp a (with_cat p (a_cat a)).
+Proof. unfold atom_match. apply nocat_list, atom_restrictions_cat. Qed.
+
+Lemma evall_map_QR l p : evall (map QR l) p = forallb (eval_restr ver_cmp p) l.
+Proof. induction l as [|r l IH]; [reflexivity|]. cbn [map evall forallb eval]. f_equal. exact IH. Qed.
+
+Lemma nocat_result rs l r p :
+  match rs, l with [], [r0] => Ok (QR r0) | _, _ => Ok (QAnd (rs ++ map QR l)) end = Ok r ->
+  eval r p = evall rs p && forallb (eval_restr ver_cmp p) l.
+Proof.
+  destruct rs as [|q rs].
+  - destruct l as [|r0 [|r1 l]]; intros H; injection H as <-.
+    + reflexivity.
+    + cbn. rewrite andb_true_r. reflexivity.
+    + rewrite eval_and. exact (evall_map_QR (r0 :: r1 :: l) p).
+  - intros H. assert (H' : Ok (QAnd ((q :: rs) ++ map QR l)) = Ok r) by (destruct l as [|r0 [|r1 l]]; exact H).
+    injection H' as <-. rewrite eval_and.
+    etransitivity; [apply (evall_app (q :: rs) (map QR l) p)|]. rewrite evall_map_QR. reflexivity.
+Qed.
+
+Lemma query_selects_fuel : forall f t r p,
+  wf_pkg p = true -> parse_match_fuel true f t = Ok r ->
+  exists m, meaning_fuel f t = Some m /\ eval r p = means m p.
+Proof.
+  induction f as [|f IH]; intros t r p Hwf H; [discriminate|].
+  cbn [parse_match_fuel] in H. cbn [meaning_fuel]. cbv zeta.
+  destruct (parse_head t) as [| |orig text rs] eqn:Eh; try discriminate.
+  destruct (head_ok _ _ _ _ p Hwf Eh) as (Ho & Hb & He). rewrite Ho, Hb.
+  pose proof (wf_fields p Hwf) as (Hc & Hn & _ & _).
+  destruct (Model_C03.split_last c_slash text) as [[c n]|].
+  - (* two chunks *)
+    destruct (starts_op text || negb (mem c_star text)).
+    + unfold atom_text.
+      destruct (Model_C03.parse_atom None false orig) as [a| |] eqn:Ea.
+      * destruct (Model_C03.a_transitive a); [discriminate|]. injection H as <-.
+        eexists; split; reflexivity.
+      * destruct (negb (mem c_star text)); [discriminate|].
+        destruct (longest_op text) as [[op rest]|]; [|discriminate].
+        destruct (Model_C03.split_last c_dash rest) as [[c0 vt]|]; [|discriminate].
+        destruct (Model_C03.m_version vt); [|discriminate].
+        destruct (parse_match_fuel true f c0) as [sub| |] eqn:Es; try discriminate.
+        injection H as <-. destruct (IH c0 sub p Hwf Es) as (m & Hm & Hev). rewrite Hm.
+        eexists; split; [reflexivity|].
+        rewrite eval_and, evall_app, He. cbn [evall forallb eval eval_restr means].
+        rewrite Hev, andb_true_r, andb_assoc. reflexivity.
+      * destruct (negb (mem c_star text)); [discriminate|].
+        destruct (longest_op text) as [[op rest]|]; [|discriminate].
+        destruct (Model_C03.split_last c_dash rest) as [[c0 vt]|]; [|discriminate].
+        destruct (Model_C03.m_version vt); [|discriminate].
+        destruct (parse_match_fuel true f c0) as [sub| |] eqn:Es; try discriminate.
+        injection H as <-. destruct (IH c0 sub p Hwf Es) as (m & Hm & Hev). rewrite Hm.
+        eexists; split; [reflexivity|].
+        rewrite eval_and, evall_app, He. cbn [evall forallb eval eval_restr means].
+        rewrite Hev, andb_true_r, andb_assoc. reflexivity.
+    + unfold glob_pair in H.
+      pose proof (piece_ok 0 RCategory c p (fun s => eq_refl) Hc) as HPc.
+      pose proof (piece_ok 1 RPackage n p (fun s => eq_refl) Hn) as HPn.
+      cbn [pkg_field] in HPc, HPn.
+      destruct (convert_glob c) eqn:Ec; destruct (convert_glob n) eqn:En; try discriminate;
+        apply (eval_finish _ _ p) in H; rewrite H;
+        (eexists; split; [reflexivity|]); cbn [means];
+        rewrite <- HPc, <- HPn by discriminate; rewrite ?evall_app, He;
+        cbn [piece evall forallb eval andb pkg_field]; rewrite ?andb_true_r, ?andb_assoc; reflexivity.
+  - (* one chunk *)
+    unfold one_chunk in H. destruct (collect_ops text) as [ops name].
+    destruct (is_nil ops && mem c_star name).
+    + pose proof (piece_ok 1 RPackage name p (fun s => eq_refl) Hn) as HP. cbn [pkg_field] in HP.
+      destruct (convert_glob name) eqn:Ec; try discriminate;
+        apply (eval_finish _ _ p) in H; rewrite H;
+        (eexists; split; [reflexivity|]); cbn [means];
+        rewrite <- HP by discriminate; rewrite ?evall_app, He;
+        cbn [piece evall forallb eval andb pkg_field field_ok is_nil orb]; rewrite ?andb_true_r; reflexivity.
+    + destruct (negb (is_nil ops) && starts_star name); [discriminate|].
+      unfold atom_text.
+      destruct (Model_C03.parse_atom None false (ops ++ fake_category ++ c_slash :: name)) as [a| |];
+        try discriminate.
+      destruct (Model_C03.a_transitive a); [discriminate|].
+      apply (nocat_result _ _ _ p) in H. rewrite H, nocat_ok, He.
+      eexists; split; reflexivity.
+Qed.
+
+Lemma query_selects_proof : forall t r p,
+  wf_pkg p = true -> parse_match t = Ok r -> eval r p = describes t p.
+Proof.
+  intros t r p Hwf H. unfold describes, meaning_of.
+  destruct (query_selects_fuel _ _ _ p Hwf H) as (m & Hm & Hev). rewrite Hm. exact Hev.
+Qed.
+
+(* ------------------------------------------------------------------ pieces of a text are substrings *)
+Lemma rsplit_dcolon_app s : forall a r, rsplit_dcolon s = Some (a, r) -> s = a ++ c_colon :: c_colon :: r.
+Proof.
+  induction s as [|x s IH]; intros a r H; [discriminate|].
+  cbn [rsplit_dcolon] in H. destruct (rsplit_dcolon s) as [[p q]|].
+  - injection H as <- <-. cbn [app]. f_equal. apply IH. reflexivity.
+  - destruct s as [|y s']; [discriminate|].
+    destruct ((x =? c_colon) && (y =? c_colon)) eqn:E; [|discriminate].
+    injection H as <- <-. apply andb_true_iff in E as [E1 E2].
+    apply N.eqb_eq in E1, E2. subst. reflexivity.
+Qed.
+
+Lemma split_last_app c s : forall a b, Model_C03.split_last c s = Some (a, b) -> s = a ++ c :: b.
+Proof.
+  induction s as [|x s IH]; intros a b H; [discriminate|].
+  cbn [Model_C03.split_last] in H. destruct (Model_C03.split_last c s) as [[p q]|].
+  - injection H as <- <-. cbn [app]. f_equal. apply IH. reflexivity.
+  - destruct (x =? c) eqn:E; [|discriminate]. injection H as <- <-. apply N.eqb_eq in E. subst. reflexivity.
+Qed.
+
+Lemma split_first_app c s : forall a b, Model_C03.split_first c s = Some (a, b) -> s = a ++ c :: b.
+Proof.
+  induction s as [|x s IH]; intros a b H; [discriminate|].
+  cbn [Model_C03.split_first] in H. destruct (x =? c) eqn:E.
+  - injection H as <- <-. apply N.eqb_eq in E. subst. reflexivity.
+  - destruct (Model_C03.split_first c s) as [[p q]|]; [|discriminate].
+    injection H as <- <-. cbn [app]. f_equal. apply IH. reflexivity.
+Qed.
+
+Lemma split_last_some c s : mem c s = true -> exists a b, Model_C03.split_last c s = Some (a, b).
+Proof.
+  induction s as [|x s IH]; [discriminate|]. unfold mem. cbn [existsb Model_C03.split_last]. intros H.
+  destruct (Model_C03.split_last c s) as [[p q]|] eqn:E; [eauto|].
+  apply orb_true_iff in H as [H|H].
+  - rewrite N.eqb_sym, H. eauto.
+  - destruct (IH H) as (a & b & Hab). discriminate.
+Qed.
+
+Lemma mem_app_false c a b : mem c (a ++ b) = false -> mem c a = false /\ mem c b = false.
+Proof. rewrite mem_app. apply orb_false_iff. Qed.
+
+Lemma mem_cons_false c x b : mem c (x :: b) = false -> mem c b = false.
+Proof. unfold mem. cbn [existsb]. intros H. apply orb_false_iff in H. apply H. Qed.
+
+Lemma longest_op_suffix s op rest : longest_op s = Some (op, rest) -> exists pre, s = pre ++ rest.
+Proof.
+  unfold longest_op. intros H.
+  repeat match type of H with
+         | match ?x with _ => _ end = _ => destruct x eqn:?; try discriminate
+         end;
+    injection H as <- <-; subst;
+    first [ now (eexists [_; _]) | now (eexists [_]) ].
+Qed.
+
+Lemma slot_part_nostar attr exact tok : mem c_star tok = false -> exists l, slot_part attr exact tok = Some l.
+Proof. intros H. unfold slot_part. rewrite H. destruct (is_nil tok); eauto. Qed.
+
+(* the head of a text without "*" and "!" never fails, and its pieces contain no "*" *)
+Lemma head_nostar t : mem c_star t = false -> mem c_bang t = false ->
+  exists text rs, parse_head t = HOk (strip t) text rs /\ mem c_star text = false
+                  /\ q_body (split_query t) = text.
+Proof.
+  intros Hs Hb. unfold parse_head, split_query.
+  rewrite (mem_strip c_bang t eq_refl), Hb.
+  assert (Ho : mem c_star (strip t) = false) by (rewrite (mem_strip c_star t eq_refl); exact Hs).
+  assert (Ht1 : forall a r, rsplit_dcolon (strip t) = Some (a, r) -> mem c_star a = false).
+  { intros a r E. apply rsplit_dcolon_app in E. rewrite E in Ho. apply mem_app_false in Ho. apply Ho. }
+  assert (G : forall t1 rs1, mem c_star t1 = false ->
+            exists text rs,
+              match Model_C03.split_last c_colon t1 with
+              | Some (a, sl) =>
+                  let '(slot, sub) := match Model_C03.split_first c_slash sl with
+                                      | Some (x, y) => (x, y) | None => (sl, []) end in
+                  match slot_part 2 RSlot slot, slot_part 3 RSubSlot sub with
+                  | Some x, Some y => HOk (strip t) a (rs1 ++ x ++ y)
+                  | _, _ => HBadGlob
+                  end
+              | None => HOk (strip t) t1 rs1
+              end = HOk (strip t) text rs /\ mem c_star text = false
+              /\ q_body (let '(body, sl) := match Model_C03.split_last c_colon t1 with
+                                            | Some (a, s) => (a, s) | None => (t1, []) end in
+                         let '(slot, sub) := match Model_C03.split_first c_slash sl with
+                                             | Some (x, y) => (x, y) | None => (sl, []) end in
+                         {| q_orig := strip t; q_repo := None; q_slot := slot; q_sub := sub; q_body := body |})
+                 = text).
+  { intros t1 rs1 H1. destruct (Model_C03.split_last c_colon t1) as [[a sl]|] eqn:E.
+    - apply split_last_app in E. rewrite E in H1. apply mem_app_false in H1 as [Ha Hsl].
+      apply mem_cons_false in Hsl.
+      destruct (Model_C03.split_first c_slash sl) as [[x y]|] eqn:E2.
+      + apply split_first_app in E2. rewrite E2 in Hsl. apply mem_app_false in Hsl as [Hx Hy].
+        apply mem_cons_false in Hy.
+        destruct (slot_part_nostar 2 RSlot x Hx) as [lx ->].
+        destruct (slot_part_nostar 3 RSubSlot y Hy) as [ly ->]. eauto.
+      + destruct (slot_part_nostar 2 RSlot sl Hsl) as [lx ->].
+        destruct (slot_part_nostar 3 RSubSlot [] eq_refl) as [ly ->]. eauto.
+    - eauto. }
+  destruct (rsplit_dcolon (strip t)) as [[a r]|] eqn:E.
+  - destruct (G a [QR (RRepo r)] (Ht1 _ _ eq_refl)) as (text & rs & H1 & H2 & H3).
+    exists text, rs. split; [exact H1|]. split; [exact H2|].
+    revert H3. destruct (Model_C03.split_last c_colon a) as [[? ?]|];
+      [destruct (Model_C03.split_first c_slash _) as [[? ?]|]|]; intros H3; exact H3.
+  - destruct (G (strip t) [] Ho) as (text & rs & H1 & H2 & H3).
+    exists text, rs. split; [exact H1|]. split; [exact H2|].
+    revert H3. destruct (Model_C03.split_last c_colon (strip t)) as [[? ?]|];
+      [destruct (Model_C03.split_first c_slash _) as [[? ?]|]|]; intros H3; exact H3.
+Qed.
+
+(* a plain atom string (category/package, no glob, no blocker) selects what the atom matches *)
+Definition atom_result (t : str) : res :=
+  match Model_C03.parse_atom None false (strip t) with
+  | Model_C03.Ok a => if Model_C03.a_transitive a then EUnmodelled else Ok (QAtom a)
+  | _ => EParse
+  end.
+
+Lemma plain_atom_same_as_atom_proof : forall fix_ t,
+  mem c_star t = false -> mem c_bang t = false -> mem c_slash (q_body (split_query t)) = true ->
+  parse_match_gen fix_ t = atom_result t
+  /\ forall a p, atom_result t = Ok (QAtom a) -> eval (QAtom a) p = atom_match ver_cmp (bridge a) p.
+Proof.
+  intros fix_ t Hs Hb Hsl. split; [|reflexivity].
+  destruct (head_nostar t Hs Hb) as (text & rs & Hh & Hst & Hq). rewrite Hq in Hsl.
+  unfold parse_match_gen, atom_result. cbn [parse_match_fuel]. rewrite Hh.
+  destruct (split_last_some _ _ Hsl) as (c & n & ->).
+  rewrite Hst. cbn [negb]. rewrite orb_true_r.
+  destruct (Model_C03.parse_atom None false (strip t)); reflexivity.
+Qed.
+
+(* ------------------------------------------------------------------ pinned tree vs repaired *)
+(* the two behaviours differ only on texts that contain both a ":" and a "*" *)
+Lemma head_nocolon t : mem c_colon t = false ->
+  parse_head t = HBlocker \/ parse_head t = HOk (strip t) (strip t) [].
+Proof.
+  intros H. unfold parse_head. destruct (mem c_bang (strip t)); [left; reflexivity|right].
+  assert (Ho : mem c_colon (strip t) = false) by (rewrite (mem_strip c_colon t eq_refl); exact H).
+  destruct (rsplit_dcolon (strip t)) as [[a r]|] eqn:E.
+  - apply rsplit_dcolon_app in E. rewrite E, mem_app in Ho. apply orb_false_iff in Ho as [_ Ho].
+    unfold mem in Ho. cbn in Ho. discriminate.
+  - destruct (Model_C03.split_last c_colon (strip t)) as [[a sl]|] eqn:E2; [|reflexivity].
+    apply split_last_app in E2. rewrite E2, mem_app in Ho. apply orb_false_iff in Ho as [_ Ho].
+    unfold mem in Ho. cbn in Ho. discriminate.
+Qed.
+
+Lemma nocolon_same : forall f t, mem c_colon t = false ->
+  parse_match_fuel false f t = parse_match_fuel true f t.
+Proof.
+  induction f as [|f IH]; intros t H; [reflexivity|].
+  cbn [parse_match_fuel]. destruct (head_nocolon t H) as [-> | ->]; [reflexivity|].
+  assert (Ho : mem c_colon (strip t) = false) by (rewrite (mem_strip c_colon t eq_refl); exact H).
+  destruct (Model_C03.split_last c_slash (strip t)) as [[c n]|]; [|reflexivity].
+  destruct (starts_op (strip t) || negb (mem c_star (strip t))); [|reflexivity].
+  destruct (Model_C03.parse_atom None false (strip t)); try reflexivity;
+    (destruct (negb (mem c_star (strip t))); [reflexivity|];
+     destruct (longest_op (strip t)) as [[op rest]|] eqn:El; [|reflexivity];
+     destruct (Model_C03.split_last c_dash rest) as [[c0 vt]|] eqn:Ed; [|reflexivity];
+     destruct (Model_C03.m_version vt); [|reflexivity];
+     rewrite IH; [reflexivity|];
+     apply longest_op_suffix in El as [pre El]; rewrite El in Ho; apply mem_app_false in Ho as [_ Ho];
+     apply split_last_app in Ed; rewrite Ed in Ho; apply mem_app_false in Ho; apply Ho).
+Qed.
+
+Lemma nostar_same : forall t, mem c_star t = false -> parse_match_orig t = parse_match t.
+Proof.
+  intros t Hs. unfold parse_match_orig, parse_match, parse_match_gen. cbn [parse_match_fuel].
+  destruct (mem c_bang t) eqn:Hb.
+  - unfold parse_head. rewrite (mem_strip c_bang t eq_refl), Hb. reflexivity.
+  - destruct (head_nostar t Hs Hb) as (text & rs & -> & Hst & _).
+    destruct (Model_C03.split_last c_slash text) as [[c n]|]; [|reflexivity].
+    rewrite Hst. cbn [negb]. rewrite orb_true_r.
+    destruct (Model_C03.parse_atom None false (strip t)); reflexivity.
+Qed.
+
+Definition known_class (t : str) : bool := mem c_colon t && mem c_star t.
+
+Lemma orig_is_fixed_partial_proof : forall t, known_class t = false -> parse_match_orig t = parse_match t.
+Proof.
+  intros t H. apply andb_false_iff in H as [H|H].
+  - apply nocolon_same, H.
+  - apply nostar_same, H.
+Qed.
+
+(* ------------------------------------------------------------------ witnesses *)
+Definition mkpkg (c n v sl ss r : bstr) : package :=
+  {| p_cat := s2l c; p_pkg := s2l n; p_ver := s2l v; p_rev := None; p_fullver := s2l v;
+     p_slot := s2l sl; p_subslot := s2l ss; p_repo := s2l r; p_use := []; p_iuse := [] |}.
+Arguments mkpkg (c n v sl ss r)%bs_scope.
+Definition alsa_lib_0 := mkpkg "media-libs" "alsa-lib" "1.2" "0" "0" "gentoo".
+Definition alsa_lib_5 := mkpkg "media-libs" "alsa-lib" "1.2" "5" "5" "other".
+Definition alsa_old := mkpkg "media-libs" "alsa-lib" "1.0" "0" "0" "gentoo".
+Definition qtcore_5 := mkpkg "dev-qt" "qtcore" "5.15" "5" "5.15" "gentoo".
+
+Definition unres (r : res) : qr := match r with Ok q => q | _ => QTrue end.
+Definition t_globver : str := s2l ">=*/alsa-*-1.1.7:0"%bs.
+Definition r_globver_orig : qr := Eval vm_compute in unres (parse_match_orig t_globver).
+Definition r_globver : qr := Eval vm_compute in unres (parse_match t_globver).
+
+(* the full statement for the pinned tree, and its refutation *)
+Definition C44_orig_full_statement : Prop :=
+  forall t r p, wf_pkg p = true -> parse_match_orig t = Ok r -> eval r p = describes t p.
+
+Lemma query_selects_orig_refuted_proof : ~ C44_orig_full_statement.
+Proof.
+  intros H.
+  assert (Er : parse_match_orig t_globver = Ok r_globver_orig) by (vm_compute; reflexivity).
+  specialize (H t_globver r_globver_orig alsa_lib_5 eq_refl Er).
+  assert (E1 : eval r_globver_orig alsa_lib_5 = true) by (vm_compute; reflexivity).
+  assert (E2 : describes t_globver alsa_lib_5 = false) by (vm_compute; reflexivity).
+  congruence.
+Qed.
+
+(* "every (non-blocker, non-transitive) atom text is accepted and selects what the atom matches":
+   false for the slot operator * followed by a USE block *)
+Definition C44_atom_full_statement : Prop :=
+  forall t a, mem c_bang t = false ->
+    Model_C03.parse_atom None false (strip t) = Model_C03.Ok a -> Model_C03.a_transitive a = false ->
+    parse_match t = Ok (QAtom a).
+
+Definition t_slotstar : str := s2l "a/b:*[x]"%bs.
+Definition a_slotstar : Model_C03.atom_rec :=
+  Eval vm_compute in
+    match Model_C03.parse_atom None false (strip t_slotstar) with
+    | Model_C03.Ok a => a
+    | _ => Model_C03.Build_atom_rec [] [] [] None None [] false false None None None None None false false
+    end.
+
+Lemma atom_accepted_refuted_proof : ~ C44_atom_full_statement.
+Proof.
+  intros H.
+  assert (Ea : Model_C03.parse_atom None false (strip t_slotstar) = Model_C03.Ok a_slotstar)
+    by (vm_compute; reflexivity).
+  specialize (H t_slotstar a_slotstar eq_refl Ea eq_refl).
+  assert (E : parse_match t_slotstar = EParse) by (vm_compute; reflexivity).
+  congruence.
+Qed.
+
+(* ------------------------------------------------------------------ non-vacuity *)
+Definition t_pair : str := s2l " dev-*/qt*:5*/*15::gentoo "%bs.
+Definition r_pair : qr := Eval vm_compute in unres (parse_match t_pair).
+Example ex_glob_pair :
+  parse_match t_pair = Ok r_pair
+  /\ eval r_pair qtcore_5 = true /\ eval r_pair alsa_lib_5 = false /\ describes t_pair qtcore_5 = true.
+Proof. repeat split; vm_compute; reflexivity. Qed.
+
+Example ex_globver_fixed :
+  parse_match t_globver = Ok r_globver
+  /\ eval r_globver alsa_lib_0 = true /\ eval r_globver alsa_lib_5 = false /\ eval r_globver alsa_old = false.
+Proof. repeat split; vm_compute; reflexivity. Qed.
+
+Definition t_nocat : str := s2l ">=alsa-lib-1.1:0"%bs.
+Definition r_nocat : qr := Eval vm_compute in unres (parse_match t_nocat).
+Example ex_nocat :
+  parse_match t_nocat = Ok r_nocat
+  /\ eval r_nocat alsa_lib_0 = true /\ eval r_nocat alsa_old = false /\ eval r_nocat alsa_lib_5 = false.
+Proof. repeat split; vm_compute; reflexivity. Qed.
+
+Definition t_atom : str := s2l "media-libs/alsa-lib:0"%bs.
+Example ex_plain_atom :
+  mem c_star t_atom = false /\ mem c_bang t_atom = false /\ mem c_slash (q_body (split_query t_atom)) = true
+  /\ parse_match t_atom = atom_result t_atom /\ atom_result t_atom <> EParse.
+Proof. repeat split; try (vm_compute; reflexivity). vm_compute. discriminate. Qed.
+
+Example ex_shell : shell_match (s2l "a*b*"%bs) (s2l "aXbbY"%bs).
+Proof. apply glob_match_is_shell_proof. vm_compute. reflexivity. Qed.
+
+Example ex_known_class : known_class t_globver = true.
+Proof. reflexivity. Qed.
+
+Example ex_rejected :
+  parse_match (s2l "a**"%bs) = EParse /\ parse_match (s2l "dev-qt/qtcore:5*"%bs) = EParse
+  /\ parse_match (s2l "=*/foo-1*"%bs) = EParse /\ parse_match (s2l ">*a-1"%bs) = EParse.
+Proof. repeat split; vm_compute; reflexivity. Qed.
